@@ -59,5 +59,6 @@ def run(rep, tier, seed):
     rep.level = "exploration"
     rep.assume("A1", "A6", "A7", "A8")
     D.run_contracts(rep, "C16", D.binners(), tier, with_lemmas=False, also=())
+    D.run_static(rep, "C16", ("purity",))      # every per-call contract presupposes that results are functions of the arguments
     t3(rep, tier, seed)
     D.link_falsifier(rep)
